@@ -246,7 +246,17 @@ def run_shard(ctx):
                     ctx.ctr("decision_cases")
                     ctx.case(sig=sig)
                     wit = lambda **kw: common.witness(form, combo=list(combo), shape=shape, placement=placement, dataset=dataset, **kw)  # noqa: E731
-                    o = drive.convert_form(form)
+                    if n % 3 == 1:
+                        # a workbook started from a template: all five entities columns are on the sheet, the unused ones with empty cells -
+                        # what counts is what the entity row says, not which headers exist
+                        sheets_ = form.to_sheets()
+                        eh, er = sheets_["entities"]
+                        add_ = [c_ for c_ in ("entity_id", "create_if", "update_if", "label") if c_ not in eh]
+                        sheets_["entities"] = (list(eh) + add_, [list(r_) + [None] * len(add_) for r_ in er])
+                        o = drive.convert_sheets(sheets_, fmt=("dict", "xlsx", "md")[n % 9 // 3], args=form.args)
+                        ctx.ctr("template_sheets_with_empty_columns")
+                    else:
+                        o = drive.convert_form(form)
                     why = expected_reject(combo, placement, ds_ok)
                     if dataset == "x:y":
                         why = why  # prefixed NCName is admitted by the name rule; outcome judged as accepted-or-rejected below
